@@ -273,3 +273,9 @@ def run(env, rep):
         b = {k: v for k, v in r["client"].items() if k not in ("which", "followed")}
         rep.check("C17.R5", "siblings-agree", a == b, "server and client sessions have the same acknowledgement summary %s" % a,
                   "the two sessions disagree: server %s, client %s" % (a, b))
+    # ---- R7: the acknowledgement reaches the peer as an acknowledgement: on chunk stream 2 it follows other 4-byte control messages, and
+    # only the type comparison keeps it from being compressed into their header (C07 R3)
+    from ..framework import PrefixReport, wants
+    if wants(rep, "C17.R7"):
+        from . import C07
+        C07.run(env, PrefixReport(rep, "C07.R3", "C17.R7", only=("C07.R3",)))
